@@ -454,6 +454,8 @@ impl TableStore {
 
     pub fn save_table(&self, mut_table: MutableTable) -> TableStoreResult<Arc<ReadonlyTable>> {
         let maybe_parent_table = mut_table.parent_file.clone();
+        #[cfg(jj_vcs_jj_verif)]
+        crate::verif_hooks::point("table.write-segment", "");
         let table = mut_table.save_in(self)?;
         self.add_head(&table)?;
         if let Some(parent_table) = maybe_parent_table
@@ -469,11 +471,15 @@ impl TableStore {
     }
 
     fn add_head(&self, table: &Arc<ReadonlyTable>) -> TableStoreResult<()> {
+        #[cfg(jj_vcs_jj_verif)]
+        crate::verif_hooks::point("table.add-head", &table.name);
         std::fs::write(self.dir.join("heads").join(&table.name), "")
             .map_err(TableStoreError::SaveHeads)
     }
 
     fn remove_head(&self, table: &Arc<ReadonlyTable>) {
+        #[cfg(jj_vcs_jj_verif)]
+        crate::verif_hooks::point("table.remove-head", &table.name);
         // It's fine if the old head was not found. It probably means
         // that we're on a distributed file system where the locking
         // doesn't work. We'll probably end up with two current
@@ -482,6 +488,8 @@ impl TableStore {
     }
 
     fn lock(&self) -> TableStoreResult<FileLock> {
+        #[cfg(jj_vcs_jj_verif)]
+        crate::verif_hooks::point("table.lock", "");
         FileLock::lock(self.dir.join("lock")).map_err(TableStoreError::Lock)
     }
 
@@ -507,6 +515,8 @@ impl TableStore {
     }
 
     fn get_head_tables(&self) -> TableStoreResult<Vec<Arc<ReadonlyTable>>> {
+        #[cfg(jj_vcs_jj_verif)]
+        crate::verif_hooks::point("table.read-heads", "");
         let mut tables = vec![];
         for head_entry in
             std::fs::read_dir(self.dir.join("heads")).map_err(TableStoreError::LoadHeads)?
